@@ -512,6 +512,9 @@ func (e *Engine) NewFuncGen(fn *ssa.Function, c *Contract) *FuncGen {
 	if c != nil && c.Strings {
 		core.w.useStrings = true
 	}
+	if c != nil && c.Bytes {
+		core.w.longLits = true
+	}
 	g := &FuncGen{Core: core, fn: fn, c: c}
 	if fn != nil && fn.Pkg != nil {
 		g.pkg = fn.Pkg.Pkg
